@@ -75,3 +75,50 @@ func (g *gen) generateHistory() []*Input {
 	}
 	return ins
 }
+
+// Subject identifiers that are not DIDs: ToCoreClaim must refuse the credential
+// (w3c.ParseDID / core.IDFromDID error), so completeness is vacuous; should
+// issuance succeed, the identifier must still be bound: changing it has to be
+// rejected for the original claim, merklized or not.
+func (g *gen) generateNonDID(schs []*schemaInfo) []*Input {
+	raws := []any{
+		"https://example.com/customers/alice",
+		"urn:uuid:6f1c2a0e-7b1d-4c55-9a3e-0d2f4b6a8c10",
+		"mailto:alice@example.com",
+		"customers/alice",
+		"",
+		"did:example:alice", // a DID of a method core.IDFromDID does not know
+		"DID:iden3:polygon:mumbai:wyFiV4w71QgWPn6bYLsZoysFay66gKtVa9kfu6yMZ",
+		42,
+		true,
+	}
+	var ins []*Input
+	for _, sch := range schs {
+		for ri, raw := range raws {
+			sp := credSpec{Schema: sch, SubjectRaw: raw, Expiration: i64(1900000000), Status: 1, Variant: 6 + ri}
+			os := []credgen.Opts{{}, {Subject: "value", Upd: true, Version: 2, RevNonce: 9}}
+			if sch.Merklized {
+				os[1].Root = "value"
+			}
+			for _, o := range os {
+				c := g.base(sch, sp, o, "complete")
+				c.Site = fmt.Sprintf("subject-id:%T", raw)
+				if s, ok := raw.(string); ok {
+					c.Site = "subject-id:" + s
+				}
+				ins = append(ins, c)
+			}
+			for _, m := range docMods(buildDoc(sp), sch) {
+				if m.Site != "change:credentialSubject.id" && m.Site != "remove:credentialSubject.id" {
+					continue
+				}
+				in := g.base(sch, sp, os[0], "doc")
+				mb, _ := json.Marshal(m.Doc)
+				in.ModCred, in.Site, in.Field = mb, m.Site, m.Field
+				in.Bound = true
+				ins = append(ins, in)
+			}
+		}
+	}
+	return ins
+}
